@@ -5,19 +5,29 @@ _NOTE = ("Trusts the ~300-line reference model in harness/graphkit/src/model.rs 
          "in-memory linear storage (testing::Manager) in the quick tier; schedules/histories are sampled, not enumerated.")
 
 
+def _file_storage(scale=30):
+    # the same histories on the libc FileManager (tmpfs directories), debug profile
+    return one("native-dbg", "mon-rt", "rt_graph", label="native-dbg-file-storage", set={"storage": "file"}, scale=scale)
+
+
 def rtg(pid, technique, text, extra_steps=None):
     reg(pid, native("mon-rt", "rt_graph") + (extra_steps or []), technique, text, _NOTE, design_ref=f"DESIGN.md 3.1, 4 ({pid})")
 
 
-rtg("C01", "differential replay of delivery histories against each other and a reference model",
+rtg("C01", "differential replay of delivery histories (and sync topologies) against each other and a reference model",
     "Each generated command DAG is delivered to fresh replicas through >=4 different histories (order, batching, flushes, commit points, duplicates); "
-    "heads, full fact dump and hello head must agree pairwise and with the reference; replicas that act and replicas that receive the result must agree too. "
-    + _G)
+    "heads, full fact dump and hello head must agree pairwise and with the reference; replicas that act and replicas that receive the result must agree too; "
+    "a second step syncs 2-5 replicas holding different down-sets pairwise in random order to quiescence and compares them the same way. "
+    + _G,
+    extra_steps=one("native-dbg", "mon-rt", "rt_sync", label="native-dbg-sync-topologies", scale=50) + _file_storage())
 rtg("C02", "online check of the policy event log per sink transaction + seq-list fact, incl. spill-forcing graphs",
     "Every braid the runtime runs is observed through the audit policy: no duplicate, ancestors first, never a merge, applied set equals the reference region; "
-    "the order-sensitive seq fact lists each non-quiet command once. Large cases overflow the braid buffer and convergence blocks into a counting spill (counters must be > 0).")
+    "the order-sensitive seq fact lists each non-quiet command once. Large cases overflow the braid buffer and convergence blocks into a counting spill (counters must be > 0).",
+    extra_steps=_file_storage(100))
 rtg("C03", "reference-model comparison of every committed fact state and every observed braid order",
-    "After every commit the fact dump equals the reference braid (priority,id ties; lone-strand start; finalize first) for the frontier, independent of the segment layout each history produced.")
+    "After every commit the fact dump equals the reference braid (priority,id ties; lone-strand start; finalize first) for the frontier, independent of the segment layout each history produced; "
+    "the histories are replayed on the in-memory and on the file-backed linear storage.",
+    extra_steps=_file_storage())
 rtg("C04", "state snapshot before/inside/after an action on multi-head graphs",
     "On committed multi-head states the action's view must equal the fact cache, the collapse must emit no effect, and the advertised hello head must be the merge command the collapse wrote (located afterwards).")
 rtg("C05", "reference predicate (two incomparable finalize commands) vs observed ParallelFinalize, with unchanged-state check",
@@ -30,7 +40,8 @@ rtg("C07", "before/after snapshots around succeeding and failing actions",
 rtg("C08", "interleaving generator over several open transactions, actions and commits vs a (committed set, stamp) model",
     "Random interleavings on one client: the committed command set never shrinks; commit succeeds iff no other commit/action happened since the transaction first read the heads, else ConcurrentTransaction with unchanged state.")
 rtg("C09", "frontier invariant checked after every commit/action against the reference DAG",
-    "Heads strictly ascending by id, duplicate-free, equal to the frontier of the committed set; a walk from the heads reaches exactly the delivered commands; add_commands counts match.")
+    "Heads strictly ascending by id, duplicate-free, equal to the frontier of the committed set; a walk from the heads reaches exactly the delivered commands; add_commands counts match.",
+    extra_steps=_file_storage())
 rtg("C10", "enumerated first-command shapes and init-like intruders",
     "Correct init, parented, policy-less, foreign-id, empty and policy-rejected first commands on an empty provider; own init and foreign parentless commands inside later batches; list_graph_ids/get_storage observed.")
 rtg("C11", "all-pairs ancestry oracle (reference bitsets) over many segment layouts incl. long chains",
